@@ -4,9 +4,317 @@ Helper lemmas for C16 (verified checkers for hulls and bounding volumes).
 import TrimeshVerif.Model.Bounds
 import Mathlib.Tactic.Ring
 import Mathlib.Tactic.Linarith
+import Mathlib.Tactic.LinearCombination
 import Mathlib.Tactic.FieldSimp
 import Mathlib.Algebra.Order.Field.Rat
 namespace TV.Bounds
 open TV.Query
+
+/-! ### planes, heights, convexity -/
+theorem dot_self_nonneg (a : P) : 0 ≤ dot a a := by
+  obtain ⟨a1, a2, a3⟩ := a
+  simp only [dot]
+  nlinarith [mul_self_nonneg a1, mul_self_nonneg a2, mul_self_nonneg a3]
+
+theorem height_lerp (t : Tri) (p q : P) (s : Rat) :
+    height t (lerp p q s) = (1 - s) * height t p + s * height t q := by
+  obtain ⟨⟨a1, a2, a3⟩, ⟨b1, b2, b3⟩, ⟨c1, c2, c3⟩⟩ := t
+  obtain ⟨p1, p2, p3⟩ := p
+  obtain ⟨q1, q2, q3⟩ := q
+  simp only [height, normal, lerp, dot, sub, add, smul, cross]
+  ring
+
+theorem height_flip (a b c p : P) : height (a, c, b) p = - height (a, b, c) p := by
+  obtain ⟨a1, a2, a3⟩ := a
+  obtain ⟨b1, b2, b3⟩ := b
+  obtain ⟨c1, c2, c3⟩ := c
+  obtain ⟨p1, p2, p3⟩ := p
+  simp only [height, normal, dot, sub, cross]
+  ring
+
+theorem below_iff (eps : Rat) (t : Tri) (p : P) :
+    below eps t p = true ↔
+      (height t p ≤ 0 ∨ height t p * height t p ≤ eps * eps * dot (normal t) (normal t)) := by
+  simp [below]
+
+theorem convex_aux (a b s E : Rat) (hs0 : 0 ≤ s) (hs1 : s ≤ 1) (hE : 0 ≤ E)
+    (ha : a ≤ 0 ∨ a * a ≤ E) (hb : b ≤ 0 ∨ b * b ≤ E) :
+    (1 - s) * a + s * b ≤ 0 ∨ ((1 - s) * a + s * b) * ((1 - s) * a + s * b) ≤ E := by
+  have key : ∀ x : Rat, (x ≤ 0 ∨ x * x ≤ E) → ∃ x', x ≤ x' ∧ 0 ≤ x' ∧ x' * x' ≤ E := by
+    intro x hx
+    by_cases h0 : x ≤ 0
+    · exact ⟨0, h0, le_refl _, by simpa using hE⟩
+    · rcases hx with hx | hx
+      · exact absurd hx h0
+      · exact ⟨x, le_refl _, le_of_lt (not_le.mp h0), hx⟩
+  obtain ⟨a', ha1, ha2, ha3⟩ := key a ha
+  obtain ⟨b', hb1, hb2, hb3⟩ := key b hb
+  by_cases hc : (1 - s) * a + s * b ≤ 0
+  · exact Or.inl hc
+  · right
+    have hc' : 0 < (1 - s) * a + s * b := not_le.mp hc
+    have h1s : 0 ≤ 1 - s := by linarith
+    have hle : (1 - s) * a + s * b ≤ (1 - s) * a' + s * b' := by
+      have := mul_le_mul_of_nonneg_left ha1 h1s
+      have := mul_le_mul_of_nonneg_left hb1 hs0
+      linarith
+    have hsq : ((1 - s) * a + s * b) * ((1 - s) * a + s * b)
+        ≤ ((1 - s) * a' + s * b') * ((1 - s) * a' + s * b') :=
+      mul_self_le_mul_self (le_of_lt hc') hle
+    have hjen : ((1 - s) * a' + s * b') * ((1 - s) * a' + s * b')
+        ≤ (1 - s) * (a' * a') + s * (b' * b') := by
+      have := mul_nonneg (mul_nonneg hs0 h1s) (mul_self_nonneg (a' - b'))
+      nlinarith [this]
+    have := mul_le_mul_of_nonneg_left ha3 h1s
+    have := mul_le_mul_of_nonneg_left hb3 hs0
+    linarith
+
+theorem below_lerp (eps : Rat) (t : Tri) (p q : P) (s : Rat) (hs0 : 0 ≤ s) (hs1 : s ≤ 1)
+    (hp : below eps t p = true) (hq : below eps t q = true) :
+    below eps t (lerp p q s) = true := by
+  rw [below_iff] at hp hq ⊢
+  rw [height_lerp]
+  exact convex_aux _ _ s _ hs0 hs1
+    (mul_nonneg (mul_self_nonneg eps) (dot_self_nonneg _)) hp hq
+
+/-! ### Bool checkers unfolded -/
+theorem hullCheck_iff (eps : Rat) (pts hv : List P) (hf : List Face) (ts : List Tri)
+    (ht : trisOf hv hf = some ts) :
+    hullCheck eps pts hv hf = true ↔
+      ((∀ v ∈ hv, v ∈ pts) ∧ (∀ t ∈ ts, ∀ p ∈ pts, below eps t p = true) ∧
+       TV.Topology.isWatertight hf = true ∧ TV.Topology.isWindingConsistent hf = true ∧
+       0 < vol6 ts) := by
+  simp only [hullCheck, ht, Bool.and_eq_true, List.all_eq_true, decide_eq_true_eq,
+    List.contains_iff_mem, and_assoc]
+
+theorem leP_iff (a b : P) : leP a b = true ↔ (a.1 ≤ b.1 ∧ a.2.1 ≤ b.2.1 ∧ a.2.2 ≤ b.2.2) := by
+  simp only [leP, Bool.and_eq_true, decide_eq_true_eq, and_assoc]
+
+theorem aabbCheck_iff (pts : List P) (lo hi : P) :
+    aabbCheck pts lo hi = true ↔
+    ((∀ p ∈ pts, lo.1 ≤ p.1 ∧ lo.2.1 ≤ p.2.1 ∧ lo.2.2 ≤ p.2.2 ∧ p.1 ≤ hi.1 ∧ p.2.1 ≤ hi.2.1 ∧ p.2.2 ≤ hi.2.2) ∧
+    (∃ p ∈ pts, p.1 = lo.1) ∧ (∃ p ∈ pts, p.2.1 = lo.2.1) ∧ (∃ p ∈ pts, p.2.2 = lo.2.2) ∧
+    (∃ p ∈ pts, p.1 = hi.1) ∧ (∃ p ∈ pts, p.2.1 = hi.2.1) ∧ (∃ p ∈ pts, p.2.2 = hi.2.2)) := by
+  simp only [aabbCheck, Bool.and_eq_true, List.all_eq_true, List.any_eq_true, leP_iff,
+    beq_iff_eq, and_assoc]
+
+theorem inBox_iff (eps : Rat) (ext q : P) : inBox eps ext q = true ↔
+    (absR q.1 ≤ ext.1 / 2 + eps ∧ absR q.2.1 ≤ ext.2.1 / 2 + eps ∧ absR q.2.2 ≤ ext.2.2 / 2 + eps) := by
+  simp only [inBox, Bool.and_eq_true, decide_eq_true_eq, and_assoc]
+
+theorem obbCheck_imp (eps : Rat) (pts : List P) (T : Rigid) (ext : P) (h : obbCheck eps pts T ext = true) :
+    ∀ p ∈ pts, inBox eps ext (T.apply p) = true := by
+  simp only [obbCheck, Bool.and_eq_true, List.all_eq_true] at h
+  exact h.2
+
+theorem sphereCheck_imp (eps : Rat) (pts : List P) (c : P) (r : Rat) (h : sphereCheck eps pts c r = true) :
+    ∀ p ∈ pts, dist2 p c ≤ (r + eps) * (r + eps) := by
+  simp only [sphereCheck, Bool.and_eq_true, List.all_eq_true, decide_eq_true_eq] at h
+  exact h.2
+
+/-! ### rigid transforms -/
+
+/-- Gram determinant identity: `det [a;b;c]² = det (Gram a b c)` -/
+theorem det_sq_eq_gram (a b c : P) :
+    dot a (cross b c) * dot a (cross b c) =
+      dot a a * (dot b b * dot c c - dot b c * dot b c)
+      - dot a b * (dot a b * dot c c - dot b c * dot a c)
+      + dot a c * (dot a b * dot b c - dot b b * dot a c) := by
+  obtain ⟨a1, a2, a3⟩ := a
+  obtain ⟨b1, b2, b3⟩ := b
+  obtain ⟨c1, c2, c3⟩ := c
+  simp only [dot, cross]
+  ring
+
+/-- Cramer: `det [a;b;c] • w` from the three products `a·w, b·w, c·w` -/
+theorem cramer (a b c w : P) :
+    smul (dot a (cross b c)) w =
+      add (add (smul (dot a w) (cross b c)) (smul (dot b w) (cross c a))) (smul (dot c w) (cross a b)) := by
+  obtain ⟨a1, a2, a3⟩ := a
+  obtain ⟨b1, b2, b3⟩ := b
+  obtain ⟨c1, c2, c3⟩ := c
+  obtain ⟨w1, w2, w3⟩ := w
+  simp only [dot, cross, smul, add, Prod.mk.injEq]
+  refine ⟨?_, ?_, ?_⟩ <;> ring
+
+theorem dot_comm (a b : P) : dot a b = dot b a := by
+  simp only [dot]; ring
+
+/-- inner product of `x` with the residual of `v` after projecting on `a, b, c` -/
+theorem proj_dot (a b c v x : P) :
+    dot x (sub v (add (add (smul (dot a v) a) (smul (dot b v) b)) (smul (dot c v) c))) =
+      dot x v - (dot a v * dot x a + dot b v * dot x b + dot c v * dot x c) := by
+  obtain ⟨a1, a2, a3⟩ := a
+  obtain ⟨b1, b2, b3⟩ := b
+  obtain ⟨c1, c2, c3⟩ := c
+  obtain ⟨v1, v2, v3⟩ := v
+  obtain ⟨x1, x2, x3⟩ := x
+  simp only [dot, sub, add, smul]
+  ring
+
+theorem eq_zero_of_smul (d : Rat) (w x y z : P) (hd : d ≠ 0)
+    (h : smul d w = add (add (smul 0 x) (smul 0 y)) (smul 0 z)) : w = (0, 0, 0) := by
+  obtain ⟨w1, w2, w3⟩ := w
+  simp only [smul, add, zero_mul, add_zero, Prod.mk.injEq, mul_eq_zero, hd, false_or] at h
+  obtain ⟨h1, h2, h3⟩ := h
+  rw [h1, h2, h3]
+
+/-- orthonormal rows preserve the norm (rows orthonormal ⇒ columns orthonormal, via Cramer) -/
+theorem ortho_norm (a b c : P) (h00 : dot a a = 1) (h11 : dot b b = 1) (h22 : dot c c = 1)
+    (h01 : dot a b = 0) (h02 : dot a c = 0) (h12 : dot b c = 0) (v : P) :
+    dot a v * dot a v + dot b v * dot b v + dot c v * dot c v = dot v v := by
+  have hdet : dot a (cross b c) * dot a (cross b c) = 1 := by
+    rw [det_sq_eq_gram, h00, h11, h22, h01, h02, h12]; ring
+  have hdet0 : dot a (cross b c) ≠ 0 := by
+    intro h0; rw [h0] at hdet; simp at hdet
+  have ha := proj_dot a b c v a
+  have hb := proj_dot a b c v b
+  have hc := proj_dot a b c v c
+  rw [h00, h01, h02] at ha
+  rw [dot_comm b a, h01, h11, h12] at hb
+  rw [dot_comm c a, dot_comm c b, h02, h12, h22] at hc
+  have ha' : dot a (sub v (add (add (smul (dot a v) a) (smul (dot b v) b)) (smul (dot c v) c))) = 0 := by
+    rw [ha]; ring
+  have hb' : dot b (sub v (add (add (smul (dot a v) a) (smul (dot b v) b)) (smul (dot c v) c))) = 0 := by
+    rw [hb]; ring
+  have hc' : dot c (sub v (add (add (smul (dot a v) a) (smul (dot b v) b)) (smul (dot c v) c))) = 0 := by
+    rw [hc]; ring
+  have hcr := cramer a b c (sub v (add (add (smul (dot a v) a) (smul (dot b v) b)) (smul (dot c v) c)))
+  rw [ha', hb', hc'] at hcr
+  have hw := eq_zero_of_smul _ _ _ _ _ hdet0 hcr
+  have hv := proj_dot a b c v v
+  rw [hw] at hv
+  have hz : dot v ((0, 0, 0) : P) = 0 := by simp [dot]
+  rw [hz, dot_comm v a, dot_comm v b, dot_comm v c] at hv
+  linarith
+
+theorem rigid_dist2 (T : Rigid) (p q : P) :
+    dist2 (T.apply p) (T.apply q) =
+      dot T.r0 (sub p q) * dot T.r0 (sub p q) + dot T.r1 (sub p q) * dot T.r1 (sub p q)
+        + dot T.r2 (sub p q) * dot T.r2 (sub p q) := by
+  obtain ⟨⟨a1, a2, a3⟩, ⟨b1, b2, b3⟩, ⟨c1, c2, c3⟩, ⟨t1, t2, t3⟩⟩ := T
+  obtain ⟨p1, p2, p3⟩ := p
+  obtain ⟨q1, q2, q3⟩ := q
+  simp only [dist2, Rigid.apply, dot, sub, add]
+  ring
+
+theorem rigid_exact (T : Rigid) (h : T.isExact) (p q : P) :
+    dist2 (T.apply p) (T.apply q) = dist2 p q := by
+  obtain ⟨h00, h11, h22, h01, h02, h12⟩ := h
+  rw [rigid_dist2, ortho_norm _ _ _ h00 h11 h22 h01 h02 h12]
+  rfl
+
+/-! ### sphere minimality -/
+
+theorem dist2_shift (q c c' : P) :
+    dist2 q c' = dist2 q c + 2 * (dot q (sub c c') - dot c (sub c c')) + dist2 c c' := by
+  obtain ⟨q1, q2, q3⟩ := q
+  obtain ⟨c1, c2, c3⟩ := c
+  obtain ⟨d1, d2, d3⟩ := c'
+  simp only [dist2, dot, sub]
+  ring
+
+theorem dot_add_smul (acc q x : P) (w : Rat) :
+    dot (add acc (smul w q)) x = dot acc x + w * dot q x := by
+  obtain ⟨a1, a2, a3⟩ := acc
+  obtain ⟨q1, q2, q3⟩ := q
+  obtain ⟨x1, x2, x3⟩ := x
+  simp only [dot, add, smul]
+  ring
+
+theorem wsum_bound (c c' : P) (L R2 : Rat) :
+    ∀ (ws : List Rat) (qs : List P) (acc : P), (∀ w ∈ ws, 0 ≤ w) →
+      (∀ q ∈ qs, L ≤ dist2 q c ∧ dist2 q c' ≤ R2) → ws.length = qs.length →
+      ws.sum * L
+        + 2 * (dot ((List.zipWith (fun w q => smul w q) ws qs).foldl add acc) (sub c c')
+                - dot acc (sub c c'))
+        - 2 * ws.sum * dot c (sub c c') + ws.sum * dist2 c c' ≤ ws.sum * R2 := by
+  intro ws
+  induction ws with
+  | nil => intro qs acc _ _ _; simp
+  | cons w ws ih =>
+    intro qs acc hw hq hlen
+    cases qs with
+    | nil => simp at hlen
+    | cons q qs =>
+      have hw0 : 0 ≤ w := hw w (List.mem_cons_self ..)
+      obtain ⟨hq1, hq2⟩ := hq q (List.mem_cons_self ..)
+      have ih' := ih qs (add acc (smul w q)) (fun x hx => hw x (List.mem_cons_of_mem _ hx))
+        (fun x hx => hq x (List.mem_cons_of_mem _ hx)) (by simpa using hlen)
+      rw [dot_add_smul] at ih'
+      rw [dist2_shift q c c'] at hq2
+      have h1 := mul_le_mul_of_nonneg_left hq1 hw0
+      have h2 := mul_le_mul_of_nonneg_left hq2 hw0
+      simp only [List.zipWith_cons_cons, List.foldl_cons, List.sum_cons]
+      linarith
+
+theorem sphere_min_aux (e x : P) : - dot e e ≤ 2 * dot e x + dot x x := by
+  obtain ⟨e1, e2, e3⟩ := e
+  obtain ⟨x1, x2, x3⟩ := x
+  simp only [dot]
+  nlinarith [mul_self_nonneg (e1 + x1), mul_self_nonneg (e2 + x2), mul_self_nonneg (e3 + x3)]
+
+theorem dot_sub_left (m c x : P) : dot (sub m c) x = dot m x - dot c x := by
+  simp only [dot, sub]; ring
+
+theorem sphere_minimal (eps delta : Rat) (pts : List P) (c : P) (r : Rat) (ws : List Rat) (qs : List P)
+    (h : sphereMinCheck eps delta pts c r ws qs = true) (c' : P) (R2 : Rat)
+    (hall : ∀ p ∈ pts, dist2 p c' ≤ R2) :
+    (r - eps) * (r - eps) ≤ R2 := by
+  simp only [sphereMinCheck, Bool.and_eq_true, List.all_eq_true, decide_eq_true_eq, beq_iff_eq,
+    List.contains_iff_mem] at h
+  obtain ⟨⟨⟨⟨⟨⟨hlen, _⟩, hw⟩, hsum⟩, hq⟩, he⟩, _⟩ := h
+  have hb := wsum_bound c c' (r * r - delta) R2 ws qs (0, 0, 0) hw
+    (fun q hqm => ⟨(hq q hqm).2, hall q (hq q hqm).1⟩) hlen
+  rw [hsum] at hb
+  have hz : dot ((0, 0, 0) : P) (sub c c') = 0 := by simp [dot]
+  have hm := sphere_min_aux (sub (wsum ws qs) c) (sub c c')
+  rw [dot_sub_left (wsum ws qs) c (sub c c')] at hm
+  have hd : dist2 c c' = dot (sub c c') (sub c c') := rfl
+  rw [hz, hd] at hb
+  unfold wsum at he hm
+  linarith
+
+/-! ### cylinder -/
+theorem cyl_split (v a : P) (haa : 0 < dot a a) :
+    v = add (sub v (smul (dot v a / dot a a) a)) (smul (dot v a / dot a a) a) ∧
+    dot (sub v (smul (dot v a / dot a a) a)) a = 0 ∧
+    dot v a / dot a a * (dot v a / dot a a) * dot a a = dot v a * dot v a / dot a a ∧
+    dot (sub v (smul (dot v a / dot a a) a)) (sub v (smul (dot v a / dot a a) a))
+      = dot v v - dot v a * dot v a / dot a a := by
+  have hne : dot a a ≠ 0 := ne_of_gt haa
+  generalize hl : dot v a / dot a a = lam
+  have hl' : dot v a = lam * dot a a := by rw [← hl]; field_simp
+  have hz2 : dot v a * dot v a / dot a a = lam * lam * dot a a := by rw [hl']; field_simp
+  rw [hz2]
+  obtain ⟨v1, v2, v3⟩ := v
+  obtain ⟨a1, a2, a3⟩ := a
+  simp only [dot, sub, add, smul, Prod.mk.injEq] at *
+  refine ⟨⟨by ring, by ring, by ring⟩, ?_, trivial, ?_⟩
+  · linear_combination hl'
+  · linear_combination (-2 * lam) * hl'
+
+theorem inward_rejected (a b c p : P) (h : height (a, b, c) p < 0) : below 0 (a, c, b) p = false := by
+  rw [Bool.eq_false_iff]
+  intro hb
+  rw [below_iff, height_flip] at hb
+  rcases hb with hb | hb
+  · linarith
+  · have : 0 < -height (a, b, c) p * -height (a, b, c) p := mul_pos (by linarith) (by linarith)
+    simp only [zero_mul] at hb
+    linarith
+
+theorem cylCheck_imp (eps : Rat) (pts : List P) (c a : P) (r h : Rat)
+    (hc : cylCheck eps pts c a r h = true) :
+    ∀ p ∈ pts, ∃ (lam : Rat) (u : P), sub p c = add u (smul lam a) ∧ dot u a = 0 ∧
+      lam * lam * dot a a ≤ (h / 2 + eps) * (h / 2 + eps) ∧ dot u u ≤ (r + eps) * (r + eps) := by
+  simp only [cylCheck, Bool.and_eq_true, List.all_eq_true, decide_eq_true_eq] at hc
+  obtain ⟨⟨⟨haa, _⟩, _⟩, hall⟩ := hc
+  intro p hp
+  obtain ⟨h1, h2⟩ := hall p hp
+  obtain ⟨e1, e2, e3, e4⟩ := cyl_split (sub p c) a haa
+  refine ⟨dot (sub p c) a / dot a a, sub (sub p c) (smul (dot (sub p c) a / dot a a) a), e1, e2, ?_, ?_⟩
+  · rw [e3, div_le_iff₀ haa]; exact h1
+  · rw [e4]; exact h2
 
 end TV.Bounds
